@@ -45,6 +45,7 @@ K_NTOK = "parse/tokeniser-error-in-first-two-tokens-reported-as-N_TOK"
 K_LINCOMN = "parse/LINCOM-count-optional-before-version-7"
 K_BITOVF = "parse/BIT-range-check-overflows-int"
 K_METAARRAY = "parse/META-CARRAY-SARRAY-truncated-at-MAX_IN_COLS"
+K_MASQ = "parse/reserved-word-field-name-with-Version-8-field-type-taken-for-a-directive"
 
 
 def load_staged_findings(chk):
@@ -456,6 +457,17 @@ RESERVED_WORDS = ["VERSION", "ENDIAN", "PROTECT", "INCLUDE", "ENCODING", "META",
 MASQUERADE_TYPES = ["RAW", "LINCOM", "BIT", "LINTERP", "PHASE", "MULTIPLY", "SBIT", "POLYNOM", "STRING", "CONST"]
 
 
+NEWER_TYPES = ["CARRAY", "DIVIDE", "RECIP", "MPLEX", "WINDOW", "INDIR", "SARRAY", "SINDIR"]   # Version 8 and later
+
+
+def reserved_name_lines_newer():
+    """the same with the field types of Standards Version 8+, where the slash is mandatory for directives and a
+    reserved word is an ordinary field name"""
+    tails = {"CARRAY": ["UINT8 1", "UINT8 1 2"], "DIVIDE": ["a b"], "RECIP": ["a 1"], "MPLEX": ["a b 1", "a b 1 2"],
+             "WINDOW": ["a b EQ 1"], "INDIR": ["a b"], "SARRAY": ["v", "v w"], "SINDIR": ["a b"]}
+    return ["%s %s %s" % (w, ty, tl) for w in RESERVED_WORDS for ty in NEWER_TYPES for tl in tails[ty]]
+
+
 def reserved_name_lines():
     """lines whose field NAME is a reserved word without a slash: every word x every such type x token counts 3..n"""
     tails = {"RAW": ["UINT8", "UINT8 1", "UINT8 1 2"], "LINCOM": ["a", "a 1 0", "1 a 1 0", "2 a 1 0 b 2 0"],
@@ -484,8 +496,10 @@ def lines_part(chk, spec_exe, lit_exe, drv, problems):
         if v in (0, 5, 7, 10) or chk.thorough:
             for ln in reserved_name_lines():
                 cases.append(("Q", v, pre, ln))
-    for ln in reserved_name_lines():
+    for ln in reserved_name_lines() + reserved_name_lines_newer():
         cases.append(("D", 10, "a RAW UINT8 1\nb RAW UINT8 1\n\n", ln))      # default mode, no /VERSION at all
+    for ln in reserved_name_lines_newer():
+        cases.append(("Q", 10, "/VERSION 10\na RAW UINT8 1\nb RAW UINT8 1\n", ln))
     inp1 = "".join("%sI %s\n" % (m, (pre + ln + "\n").encode().hex()) for m, v, pre, ln in cases).encode()
     inp2 = "".join("%s %d %s\n" % ("Q" if m == "D" else m, v, (ln + "\n").encode().hex()) for m, v, pre, ln in cases).encode()
     with ThreadPoolExecutor(max_workers=2) as ex:
@@ -539,6 +553,8 @@ def lines_part(chk, spec_exe, lit_exe, drv, problems):
             key = K_NEGFLIP
         elif ftype in ("BIT", "SBIT") and "2147483647" in ln:
             key = K_BITOVF
+        elif ftype in NEWER_TYPES and ln.split()[0] in RESERVED_WORDS:
+            key = K_MASQ
         else:
             key = "line/%s/%s" % (ftype, ln.encode().hex()[:40])
         nbad += 1
